@@ -659,7 +659,11 @@ def chan_coverage(summary, sim, samples, prop):
                   'PointCloudBuilder', 'operator new behind the seam is real malloc'],
             stubbed=['storage/transport between EncoderBuffer and DecoderBuffer '
                      '(simulated medium with fault plan)',
-                     'allocator policy (accounting, budget, simulated bad_alloc)']),
+                     'allocator policy (accounting, budget, simulated bad_alloc)',
+                     'encoders of older bitstreams (2.1 sequential meshes, 2.2 kd-tree '
+                     'point clouds): legacy-writer stub that rewrites the container '
+                     'bytes of the current encoder\'s output / frames the payload of '
+                     'FloatPointsTreeEncoder; validated by the legacy_stub canaries']),
         exhaustive=False,
         samples=samples,
     )
